@@ -127,6 +127,8 @@ BOUNDS = {
         "A": "4 ABIs x 7-8 conventions x 11 profiles (default, noalign, adj0..adj8 or adj0..adj6) x {nonleaf, leaf} x n in 0..16",
         "B": "4 ABIs x default convention x default profile x n in 1..16 x position x 17 classes",
         "C": "4 ABIs x 3 conventions x {default, noalign} x all class tuples of length <= 2",
+        "S": "4 ABIs x default convention x {default, noalign} x one CallPatch object inserted at 2-3 places (5 place lists over leaf / non-leaf / "
+        "no function / tail-jump function, every place evaluated) x n in {1, 2, registers+1} x position x {callable int, callable symbol, symbol, int}",
         "initial_sp": "pointer-size multiples mod 32 (ARM64: multiples of 16)",
     },
     "thorough": {
@@ -187,6 +189,8 @@ def tasks(tier):
                 for ch in range(len(B_CHUNKS)):
                     t.append(["B", abi, conv, prof, ch])
     for abi in sorted(CONVS):
+        t.append(["S", abi, "default", tier])
+    for abi in sorted(CONVS):
         for conv in C_CONVS[abi]:
             for prof in ("default", "noalign"):
                 t.append(["C", abi, conv, prof, 2])
@@ -224,6 +228,20 @@ def _cases(task):
         for a in CLASSES:
             for b in CLASSES:
                 yield {"abi": abi, "conv": conv, "profile": prof, "where": "nonleaf", "args": [a, b]}
+    elif kind == "S":
+        # ONE CallPatch object inserted at several places: every argument callable must be asked again, with that place's context
+        lists = [["leaf", "nonleaf"], ["nonleaf", "leaf"], ["nonleaf", "nonleaf"], ["leaf", "nofunc", "nonleaf"], ["tail", "leaf"]]
+        nregs = len(_conv_of({"abi": abi, "conv": conv})["registers"])
+        for sites in lists:
+            for ev in range(len(sites)):
+                for prof in ("default", "noalign"):
+                    for n in sorted({1, 2, nregs + 1}):
+                        for pos in range(n):
+                            for c in ("fn-int", "fn-sym", "sym", "1"):
+                                args = [DEFAULT] * n
+                                args[pos] = c
+                                yield {"abi": abi, "conv": conv, "profile": prof, "where": sites[ev], "sites": sites, "eval": ev, "args": args}
+                    yield {"abi": abi, "conv": conv, "profile": prof, "where": sites[ev], "sites": sites, "eval": ev, "args": ["fn-int", "fn-sym", "fn-int"]}
     elif kind == "C3":
         prof, first = task[3], task[4]
         for b in CLASSES:
@@ -239,22 +257,30 @@ class RecordingCallPatch(CallPatch):
 
     seen = None
     asm = None
+    only = None  # the block whose context/assembly is recorded
 
     def get_asm(self, insertion_context):
-        self.seen = insertion_context
-        self.asm = super().get_asm(insertion_context)
-        return "nop\n" + self.asm
+        asm = super().get_asm(insertion_context)
+        if self.only is None or insertion_context.block is self.only:
+            self.seen = insertion_context
+            self.asm = asm
+        return "nop\n" + asm
 
 
-def _arg_symbol(pos):
-    return "esym" if pos % 2 == 0 else "dsym"
+def _arg_symbol(pos, site=0):
+    return "esym" if (pos + site) % 2 == 0 else "dsym"
+
+
+def _sites(case):
+    """the blocks ONE patch object is inserted at (in insertion order) and the index of the one that is evaluated"""
+    return case.get("sites") or [case["where"]], case.get("eval", 0)
 
 
 def _pos_value(pos):
     return 0x21 + pos
 
 
-def _build_args(world, classes, calls):
+def _build_args(world, classes, calls, site_of=lambda ctx: 0):
     out = []
     for pos, c in enumerate(classes):
         if c == DEFAULT:
@@ -264,11 +290,10 @@ def _build_args(world, classes, calls):
         elif c == "sym":
             out.append(world.syms[_arg_symbol(pos)])
         elif c in ("fn-int", "fn-sym"):
-            val = (0x4100 + pos) if c == "fn-int" else world.syms[_arg_symbol(pos)]
-
-            def fn(ctx, _pos=pos, _val=val):
+            def fn(ctx, _pos=pos, _c=c):
                 calls.append((_pos, ctx))
-                return _val
+                site = site_of(ctx)  # the value depends on where the patch is being inserted
+                return (0x4100 + _pos + 0x20 * site) if _c == "fn-int" else world.syms[_arg_symbol(_pos, site)]
 
             out.append(fn)
         else:
@@ -284,21 +309,29 @@ def _generate(case):
     """Build and apply one CallPatch; returns a Generated or raises what the library raised
     (with .phase set to 'construct' or 'apply')."""
     abi = case["abi"]
-    world = World(abi, n_each=1, with_arg_symbols=True)
+    world = World(abi, n_each=max(1, max(case.get("sites", ["x"]).count(w_) for w_ in set(case.get("sites", ["x"])))), with_arg_symbols=True)
     cdesc = CONVS[abi][case["conv"]]
     conv = None if cdesc is None else CallingConventionDesc(
         registers=tuple(cdesc["registers"]), stack_alignment=cdesc["stack_alignment"],
         caller_cleanup=cdesc["caller_cleanup"], shadow_space=cdesc["shadow_space"],
     )
     calls = []
-    args = _build_args(world, case["args"], calls)
+    sites, ev = _sites(case)
+    site_blocks = []
+    used = {}
+    for wname in sites:
+        site_blocks.append(world.blocks[wname][used.get(wname, 0)])
+        used[wname] = used.get(wname, 0) + 1
+    args = _build_args(world, case["args"], calls, lambda ctx: next((i for i, b in enumerate(site_blocks) if b is ctx.block), -1))
     try:
         patch = RecordingCallPatch(world.syms["foo"], args, conv, **_profile_kwargs(abi, case["profile"]))
     except Exception as e:
         e.phase = "construct"
         raise
-    block = world.blocks[case["where"]][0]
-    world.ctx.insert_at(block, 0, patch)
+    block = site_blocks[ev]
+    patch.only = block
+    for b in site_blocks:
+        world.ctx.insert_at(b, 0, patch)
     try:
         world.ctx.apply()
     except (HarnessError, mach.MachineError):
@@ -313,9 +346,9 @@ def _generate(case):
     g.callable_ok = all(
         isinstance(ctx, InsertionContext) and ctx.module is world.m and ctx.block is patch.seen.block
         and ctx.stack_adjustment == patch.seen.stack_adjustment
-        for _, ctx in calls
+        for _, ctx in calls if ctx.block is block
     )
-    g.callable_positions = sorted({p for p, _ in calls})
+    g.callable_positions = sorted(p for p, ctx in calls if ctx.block is block)
     g.align_stack = patch.constraints.align_stack
     return g
 
@@ -365,11 +398,13 @@ def _expected(case):
     mask = (1 << width) - 1
     addrs = SYM_ADDR64 if width == 64 else SYM_ADDR32
     out = []
+    site = _sites(case)[1]
     for pos, c in enumerate(case["args"]):
         if c in ("sym", "fn-sym"):
-            out.append(("sym", addrs[_arg_symbol(pos)], _arg_symbol(pos)))
+            sn = _arg_symbol(pos, site if c == "fn-sym" else 0)
+            out.append(("sym", addrs[sn], sn))
             continue
-        v = _pos_value(pos) if c == DEFAULT else (0x4100 + pos if c == "fn-int" else INTS[c])
+        v = _pos_value(pos) if c == DEFAULT else (0x4100 + pos + 0x20 * site if c == "fn-int" else INTS[c])
         out.append(("int" if _fits(v, width) else "int-unfit", v & mask, None))
     return out
 
